@@ -13,35 +13,50 @@ import math
 
 import numpy as np
 
-from harness.common.num import q, unq
+from harness.common.num import fbits, q, unfbits, unq
 
 PID = "C17"
 LEVEL = "proof"
 REQUIRED_THEOREMS = [
     "subdivide_sum", "subdivide_pos", "subdivide_balanced", "subdivide_contract", "contractB_iff", "balancedB_iff",
+    "linCut_exact", "subdivideLin_exact", "subdivideLin_contract", "cut_at_integer_point", "subdivide_robust",
     "slices_tile", "slices_tile_nd", "boxes_cover", "boxes_disjoint", "box_in_array", "id_idx_bijection",
-    "bounds_tile", "subgrid_spacing", "cell_coords_agree", "volumes_add_up", "volumes_add_up_nd",
+    "bounds_tile", "subgrid_spacing", "cell_coords_agree", "cell_edges_agree", "cell_volumes_agree", "volumes_add_up",
+    "volumes_add_up_nd", "volumes_add_up_gen", "volCoef_eq_volGen", "volumes_add_up_cylinder",
     "combine_extract_id", "combine_extract_id_list", "extract_combine_id", "extract_combine_id_consistent",
     "combineUpTo_spec", "neighbor_symmetric", "neighbor_none_iff", "neighbor_respects_periodicity",
-    "neighbor_adjacent", "flags_match", "get?_extract_ghost", "operator_commutes_with_split",
-    "operator_split_combine", "ghost_exchange", "too_many_chunks_raises", "fromGrid_too_many_chunks",
-    "cylinder_split_raises", "admissible_ok", "cylinder_z_split_ok",
+    "neighbor_adjacent", "neighbor_lt_len", "flags_match", "get?_extract_ghost", "operator_commutes_with_split",
+    "operator_split_combine", "ghost_exchange", "exchangeAxis_face", "exchangeAxis_other", "exchangeUpTo_spec",
+    "exchange_faces", "setOuter_exchange_agree", "operator_exchange_combine", "outer_of_no_neighbor", "outer_face_local",
+    "too_many_chunks_raises", "fromGrid_too_many_chunks", "cylinder_split_raises", "admissible_ok", "cylinder_z_split_ok",
 ]
 RULE = ("every decomposition (chunk vector <= shape, all periodic flags) of small Cartesian grids "
         "(1-d <= 12 cells, 2-d <= 6x5, 3-d <= 4x3x3: exhaustive in thorough, a seed-chosen subset in quick) "
         "plus spherical/polar (all chunk counts) and cylindrical (all z-splits) grids with seed-derived bounds; "
         "all pairs chunks <= num <= 400 for `_subdivide`; a separate malformed stream (more chunks than cells, "
-        "radial cylinder split, hollow cylinder, bad decomposition lists) whose expected outcome is an error "
-        "class; operator-equivalence cases (grid, decomposition, operator, boundary condition, field) executed "
-        "with a serial emulation of the ghost-cell exchange.  A case is distinct by its full specification and "
-        "non-trivial if the mesh has >= 2 sub-grids (mesh legs), chunks >= 2 (subdivide leg) or the expected "
-        "outcome is an error (malformed leg)")
+        "radial cylinder split, hollow cylinder, bad decomposition lists, node counts `mpi.size` > 1 that do or do not "
+        "match) whose expected outcome is an error class; operator-equivalence cases (grid, decomposition, operator, "
+        "boundary condition, field) executed with one thread per node and an in-memory transport: periodic axes carry "
+        "'periodic' or 'anti-periodic' (all spellings; a dedicated stream splits the anti-periodic axis into 2, 3.. "
+        "chunks), the other faces value/derivative/mixed/curvature with uniform or per-component values, conditions on "
+        "the normal component (divergence operators), coordinate-dependent expressions (scalars), values varying along "
+        "the face.  A case is distinct by its full specification and non-trivial if the mesh has >= 2 sub-grids (mesh "
+        "legs), chunks >= 2 (subdivide leg), the expected outcome is an error or the node count matters (malformed "
+        "leg), or the operator result is non-zero on >= 2 sub-grids (operator legs)")
 ASSUMPTIONS = [
-    "MPI transport is not available (mpi4py absent): send/recv are emulated serially by an in-memory mailbox keyed "
-    "by (source, destination, tag); everything else of the exchange is the real code",
+    "MPI transport is not available (mpi4py/numba_mpi absent): send/recv are emulated by an in-memory mailbox keyed "
+    "by (source, destination, tag) with blocking receive, every node runs in its own thread with a thread-local "
+    "`mpi.rank`; everything else of the exchange is the real code (BoundariesList.set_ghost_cells, "
+    "BoundaryAxisBase.set_ghost_cells, _MPIBC, extract_boundary_conditions, to_subgrid; in source mode also the "
+    "ghost-cell setters/senders of the numba_mpi backend run as Python source, imported with an empty stand-in for "
+    "the `numba_mpi` package, and subgrid.make_operator(op, bc))",
     "float geometry (bounds, cell coordinates, volumes) is compared with the exact model up to 1e-12 of the domain "
     "scale (Cartesian grids store bounds as position + size, so sub-grid bounds are not bit-identical to the lattice)",
     "operator equivalence is checked to 1e-10 of the natural scale max|data|/dx^2",
+    "the contract of the real chunk sizes is decided by the model on the real sizes (`contractB`/`balancedB`, all "
+    "pairs chunks <= num <= 400 and a sample up to 5000); it is proven for the code's formula in exact arithmetic "
+    "(`subdivideLin_contract`) and for every perturbation of the form `RobustCuts` (`subdivide_robust`); that IEEE "
+    "doubles only produce such perturbations is measured (histogram `subdivide`), not proven",
 ]
 TRUSTED_EXTRA = ["numpy basic slicing/assignment semantics are modelled by `Arr.slice`/`writeBox`"]
 
@@ -79,6 +94,8 @@ def classify(e):
         return "unknown-size"
     if isinstance(e, RuntimeError) and "Not enough nodes" in msg:
         return "not-enough-nodes"
+    if isinstance(e, RuntimeError) and "Node count" in msg and "incompatible" in msg:
+        return "node-count"
     if isinstance(e, ValueError) and "one unknown" in msg:
         return "two-unknown"
     if isinstance(e, NotImplementedError):
@@ -196,6 +213,8 @@ def _mesh_worker(spec, obs):
     obs["sub_periodic"] = [[bool(p) for p in g.periodic] for g in subs]
     obs["sub_coords"] = [[[float(x) for x in c] for c in g.axes_coords] for g in subs]
     obs["sub_volume"] = [float(g.volume) for g in subs]
+    obs["sub_cell_volume_data"] = [[[float(x) for x in np.broadcast_to(np.asarray(v, dtype=float), (n_,))]
+                                    for v, n_ in zip(g.cell_volume_data, g.shape)] for g in subs]
     obs["sub_class_ok"] = all(isinstance(g, type(grid)) or isinstance(grid, type(g)) for g in subs)
     obs["sub_mesh_ok"] = all(g._mesh is mesh for g in subs)
     obs["base_mesh_none"] = grid._mesh is None
@@ -298,33 +317,33 @@ def _mesh_worker(spec, obs):
             start = sum(axes[ax][:k])
             exp_lo = float(grid.axes_bounds[ax][0]) if k == 0 else None
             exp_hi = float(grid.axes_bounds[ax][1]) if k == len(axes[ax]) - 1 else None
-            if exp_lo is not None and abs(lo - exp_lo) > tol:
+            if exp_lo is not None and not abs(lo - exp_lo) <= tol:
                 fail(f"node {i} axis {ax}: lower bound {lo!r} is not the base bound {exp_lo!r}")
-            if exp_hi is not None and abs(hi - exp_hi) > tol:
+            if exp_hi is not None and not abs(hi - exp_hi) <= tol:
                 fail(f"node {i} axis {ax}: upper bound {hi!r} is not the base bound {exp_hi!r}")
             # cell coordinates and spacing agree with the base grid
             cb = np.asarray(grid.axes_coords[ax][start:start + axes[ax][k]], dtype=float)
             cs = np.asarray(g.axes_coords[ax], dtype=float)
             if cb.shape != cs.shape or not np.all(np.abs(cb - cs) <= tol):
                 fail(f"node {i} axis {ax}: cell coordinates {cs.tolist()} != base {cb.tolist()}")
-            if abs(float(g.discretization[ax]) - float(grid.discretization[ax])) > tol:
+            if not abs(float(g.discretization[ax]) - float(grid.discretization[ax])) <= tol:
                 fail(f"node {i} axis {ax}: spacing {g.discretization[ax]!r} != base {grid.discretization[ax]!r}")
             # the upper neighbour starts where this sub-grid ends
             nb = obs["neighbors"][i][ax][1]
             if nb is not None and k + 1 < len(axes[ax]):
-                if abs(float(subs[nb].axes_bounds[ax][0]) - hi) > tol:
+                if not abs(float(subs[nb].axes_bounds[ax][0]) - hi) <= tol:
                     fail(f"node {i} axis {ax}: upper neighbour {nb} starts at {subs[nb].axes_bounds[ax][0]!r}, not at {hi!r}")
         # cell volumes agree with the corresponding block of the base grid
         sl = tuple(slice(a, b) for a, b in obs["box"][i])
         try:
             vb = np.broadcast_to(grid.cell_volumes, grid.shape)[sl]
             vs = np.broadcast_to(g.cell_volumes, g.shape)
-            if vb.shape != vs.shape or not np.allclose(vb, vs, rtol=1e-11, atol=0):
+            if vb.shape != vs.shape or not np.all(np.abs(vb - vs) <= 1e-11 * np.abs(vb)):
                 fail(f"node {i}: cell volumes differ from the base grid's block")
         except Exception as e:  # noqa: BLE001
             fail(f"node {i}: cell volumes not comparable ({e})")
     vol = sum(obs["sub_volume"])
-    if abs(vol - float(grid.volume)) > 1e-11 * abs(float(grid.volume)):
+    if not abs(vol - float(grid.volume)) <= 1e-11 * abs(float(grid.volume)):
         fail(f"sub-grid volumes add up to {vol!r}, base volume {float(grid.volume)!r}")
     # every cell of the base grid is in exactly one box
     cover = np.zeros(shape, dtype=int)
@@ -411,7 +430,7 @@ def subdivide_worker(args):
     from pde.grids._mesh import _subdivide
 
     pairs, want = args
-    bad, formula_diff, sizes_out, n = [], 0, {}, 0
+    bad, formula_diff, robust_diff, sizes_out, n = [], 0, 0, {}, 0
     want = set(map(tuple, want))
     for num, chunks in pairs:
         n += 1
@@ -430,51 +449,159 @@ def subdivide_worker(args):
             ref = [(i + 1) * num // chunks - i * num // chunks for i in range(chunks)]
             if ref != s:
                 formula_diff += 1
+            # informative: the hypothesis of theorem `subdivide_robust` (every real cut is floor(i*num/chunks), or
+            # one less where i*num/chunks is an integer and num/chunks is not)
+            cuts = [0]
+            for x in s:
+                cuts.append(cuts[-1] + x)
+            if not all(cuts[i] == i * num // chunks or (cuts[i] + 1 == i * num // chunks and (i * num) % chunks == 0
+                                                         and num % chunks != 0 and 0 < i < chunks)
+                       for i in range(chunks + 1)):
+                robust_diff += 1
         if (num, chunks) in want:
             sizes_out[(num, chunks)] = s
-    return {"n": n, "bad": bad, "formula_diff": formula_diff, "sizes": sizes_out}
+    return {"n": n, "bad": bad, "formula_diff": formula_diff, "robust_diff": robust_diff, "sizes": sizes_out}
 
 
 def malformed_worker(spec):
     """inadmissible requests must raise; report the error class"""
     from pde.grids._mesh import GridMesh
 
+    from pde.tools import mpi
+
     grid = make_grid(spec)
     if spec.get("nested"):
         mesh = GridMesh.from_grid(grid, spec["nested"])
         grid = mesh[0]
+    old = mpi.size
+    mpi.size = int(spec.get("mpi_size", 1))  # `from_grid` reads `mpi.size` dynamically
     try:
         mesh = GridMesh.from_grid(grid, spec["dec"])
     except Exception as e:  # noqa: BLE001
         return {"outcome": classify(e)}
+    finally:
+        mpi.size = old
     return {"outcome": "ok", "dec": [int(x) for x in mesh.shape],
             "sub_bounds": [[[float(v) for v in b] for b in g.axes_bounds] for g in mesh.subgrids.flat]}
 
 
 # ---- operator equivalence -------------------------------------------------------------------
+import threading
+import types
+
+_TLS = threading.local()
+KEY_ANTI = {"call_site": "GridMesh.extract_boundary_conditions",
+            "symptom": "flip_sign dropped at the seam of a split anti-periodic axis"}
+KEY_CURV = {"call_site": "CurvatureBC.get_virtual_point_data",
+            "symptom": "RuntimeError on a one-cell chunk at an outer face (needs 2 support points)"}
+KEY_INHOM = {"call_site": "ConstBCBase.to_subgrid",
+             "symptom": "NotImplementedError for a value that varies along the boundary"}
+KEY_GENERIC = {"call_site": "GridMesh/_MPIBC"}
+AXIS_NAMES = {"cartesian": ["x", "y", "z"], "spherical": ["r"], "polar": ["r"], "cylindrical": ["r", "z"]}
+
+
+class _RankModule(types.ModuleType):
+    """`pde.tools.mpi` with a thread-local `rank`: every emulated node runs in its own thread and
+    the package reads `mpi.rank` dynamically (`GridMesh.current_node`)"""
+
+    @property
+    def rank(self):
+        return getattr(_TLS, "rank", 0)
+
+    @rank.setter
+    def rank(self, v):
+        _TLS.rank = int(v)
+
+
+class _Deadlock(RuntimeError):
+    pass
+
+
 class _Mailbox:
+    """in-memory replacement of MPI point-to-point transport, keyed by (source, destination, tag).
+    Non-blocking mode (sequential emulation): a missing message is a recorded problem.  Blocking
+    mode (one thread per node): `recv` waits for the message like MPI does; if every live node is
+    waiting the exchange is dead-locked and all of them are released with an error."""
+
     def __init__(self):
         self.box = {}
         self.problems = []
+        self.cond = threading.Condition()
+        self.blocking = False
+        self.alive = 0
+        self.wanted = {}
+        self.dead = False
+        self.n_sent = 0
 
     def send(self, data, dest, tag):
         from pde.tools import mpi
         key = (int(mpi.rank), int(dest), int(tag))
-        if key in self.box:
-            self.problems.append(f"two messages with the same (source, dest, tag) {key}")
-        self.box[key] = np.array(data, copy=True)
+        with self.cond:
+            if key in self.box:
+                self.problems.append(f"two messages with the same (source, dest, tag) {key}")
+            self.box[key] = np.array(data, copy=True)
+            self.n_sent += 1
+            self.cond.notify_all()
 
     def recv(self, data, source, tag):
         from pde.tools import mpi
         key = (int(source), int(mpi.rank), int(tag))
-        if key not in self.box:
-            self.problems.append(f"no message (source, dest, tag) = {key}")
-            return
-        msg = self.box.pop(key)
+        with self.cond:
+            me = threading.get_ident()
+            while key not in self.box:
+                if not self.blocking:
+                    self.problems.append(f"no message (source, dest, tag) = {key}")
+                    return
+                self.wanted[me] = key
+                try:
+                    # dead-lock: every live node waits for a message that is not there
+                    if self.dead or (len(self.wanted) >= self.alive
+                                     and all(k not in self.box for k in self.wanted.values())):
+                        if not self.dead:
+                            self.problems.append(f"dead-lock: no message (source, dest, tag) = {key}")
+                        self.dead = True
+                        self.cond.notify_all()
+                        raise _Deadlock(f"no message (source, dest, tag) = {key}")
+                    self.cond.wait(timeout=120)
+                finally:
+                    self.wanted.pop(me, None)
+            msg = self.box.pop(key)
         if msg.shape != np.shape(data):
             self.problems.append(f"message {key} has shape {msg.shape}, buffer {np.shape(data)}")
             return
         data[...] = msg
+
+    def run_nodes(self, n, fn):
+        """run `fn(node)` for every node concurrently, each in its own thread with its own
+        `mpi.rank`; returns the exception of every node (None = finished)"""
+        errs = [None] * n
+        with self.cond:
+            self.blocking, self.alive, self.wanted, self.dead = True, n, {}, False
+
+        def work(node):
+            _TLS.rank = node
+            try:
+                fn(node)
+            except BaseException as e:  # noqa: BLE001
+                errs[node] = e
+            finally:
+                with self.cond:
+                    self.alive -= 1
+                    self.cond.notify_all()
+
+        ths = [threading.Thread(target=work, args=(i,), daemon=True) for i in range(n)]
+        for t in ths:
+            t.start()
+        for t in ths:
+            t.join(300)
+        if any(t.is_alive() for t in ths):
+            self.problems.append("a node did not finish the exchange within 300 s")
+        with self.cond:
+            self.blocking = False
+        real = [e for e in errs if e is not None and not isinstance(e, _Deadlock)]
+        if real:
+            raise real[0]
+        return errs
 
 
 def shape_data(cls, rank, data):
@@ -492,8 +619,10 @@ def shape_data(cls, rank, data):
 
 def classify_op_error(e):
     msg = str(e)
-    if "at least 2 support points" in msg:
+    if isinstance(e, RuntimeError) and "at least 2 support points" in msg:
         return "curvature-one-cell"
+    if isinstance(e, NotImplementedError) and "Cannot transfer complicated BC to subgrid" in msg:
+        return "inhomogeneous-refused"
     if "not defined with the same rank" in msg:
         return "periodic-rank"
     if "unexpected keyword argument 'const'" in msg:
@@ -501,10 +630,63 @@ def classify_op_error(e):
     return "other"
 
 
+def is_anti(v):
+    return v == "anti-periodic" or (isinstance(v, dict) and v.get("type") == "anti-periodic")
+
+
+def anti_axes(spec):
+    """axes that carry an anti-periodic condition"""
+    names = AXIS_NAMES[KINDS[spec["cls"]]]
+    return [ax for ax, nm in enumerate(names[:len(spec["shape"])]) if is_anti(spec["bc"].get(nm))]
+
+
+def _ghost_count(shape_full, na):
+    """per position of a padded array: on how many axes it sits in a ghost layer"""
+    cnt = np.zeros(shape_full, dtype=int)
+    for j, sz in enumerate(shape_full):
+        e = np.zeros(sz, dtype=int)
+        e[0] = e[-1] = 1
+        cnt = cnt + e.reshape([-1 if k == j else 1 for k in range(na)])
+    return cnt
+
+
+def _interior_mask(shape_full):
+    m = np.zeros(shape_full, dtype=bool)
+    m[(slice(1, -1),) * len(shape_full)] = True
+    return m
+
+
+def _same(a, b, tol):
+    """NaN-safe closeness: equal within tol, or both NaN (a cell nobody writes)"""
+    with np.errstate(invalid="ignore"):
+        return (np.abs(a - b) <= tol) | (np.isnan(a) & np.isnan(b))
+
+
+def _mpi_backend():
+    """the numba_mpi backend of the package.  `numba_mpi` itself is not installed: the package
+    `pde.backends.numba_mpi` only imports it as an availability test, so an empty stand-in module
+    lets the real backend class be imported; its setters/senders call `pde.tools.mpi.mpi_send/recv`,
+    which are the mailbox.  Only used with NUMBA_DISABLE_JIT=1 (the source of the setters runs as
+    plain Python)."""
+    import sys
+    if "numba_mpi" not in sys.modules:
+        try:
+            import numba_mpi  # noqa: F401
+        except ImportError:
+            sys.modules["numba_mpi"] = types.ModuleType("numba_mpi")
+    import pde.backends.numba_mpi  # noqa: F401
+    from pde.backends import get_backend
+    return get_backend("numba_mpi")
+
+
 def op_worker(spec):
-    """apply `operator` on every sub-grid, with ghost cells taken from the neighbours (serially
-    emulated exchange, real `_MPIBC` code) or from the global boundary condition at outer faces,
-    combine, and compare with the operator on the whole grid"""
+    """apply `operator` on every sub-grid, with ghost cells taken from the neighbours (real
+    `BoundariesList.set_ghost_cells` -> `BoundaryAxisBase.set_ghost_cells` -> `_MPIBC`, every node in
+    its own thread, transport = mailbox) or from the global boundary condition at outer faces, combine,
+    and compare with the operator on the whole grid.  With NUMBA_DISABLE_JIT=1 additionally: the
+    ghost-cell setters of the numba_mpi backend (run as Python source) and the public route
+    `subgrid.make_operator(op, bc, backend=numba_mpi)`."""
+    import os
     import traceback
 
     from pde.backends import get_backend
@@ -512,10 +694,17 @@ def op_worker(spec):
     from pde.grids.boundaries.local import _MPIBC
     from pde.tools import mpi
 
-    out = {"monitor": [], "error": None, "error_class": None, "stage": "base"}
-    fail = out["monitor"].append
+    source_mode = os.environ.get("NUMBA_DISABLE_JIT", "0") not in ("", "0")
+    out = {"monitor": [], "error": None, "error_class": None, "stage": "base", "source_mode": source_mode,
+           "ill_posed": False}
+
+    def fail(msg, sym="generic"):
+        out["monitor"].append({"msg": msg, "sym": sym})
+
     box = _Mailbox()
-    old = (mpi.mpi_send, mpi.mpi_recv, mpi.rank)
+    old = (mpi.mpi_send, mpi.mpi_recv)
+    old_cls = mpi.__class__
+    mpi.__class__ = _RankModule
     mpi.mpi_send, mpi.mpi_recv = box.send, box.recv
     try:
         grid = make_grid(spec)
@@ -523,25 +712,37 @@ def op_worker(spec):
         backend = get_backend(spec.get("backend", "numba"))
         info = backend.get_operator_info(grid, spec["op"])
         rng = np.random.default_rng(spec["data_seed"])
-        data = rng.uniform(-1, 1, size=(grid.dim,) * info.rank_in + tuple(grid.shape))
+        lead_in, lead_out = (grid.dim,) * info.rank_in, (grid.dim,) * info.rank_out
+        data = rng.uniform(-1, 1, size=lead_in + tuple(grid.shape))
         data = shape_data(spec["cls"], info.rank_in, data)
-        bc = spec["bc"]
-        # the whole grid
+        bc = strip_bc(spec["bc"])
+        # the whole grid.  Ghost cells nobody sets stay NaN (in the base array and in the sub-arrays
+        # alike): conditions on normal components only leave the other components' ghost cells alone
         bcs_base = grid.get_boundary_conditions(bc, rank=info.rank_in)
-        full = np.zeros((grid.dim,) * info.rank_in + tuple(grid._shape_full))
+        full = np.full(lead_in + tuple(grid._shape_full), np.nan)
         full[(...,) + grid._idx_valid] = data
         bcs_base.set_ghost_cells(full)
-        ref = np.empty((grid.dim,) * info.rank_out + tuple(grid.shape))
+        ref = np.empty(lead_out + tuple(grid.shape))
         grid.make_operator_no_bc(spec["op"], backend=backend)(full, ref)
+        scale = max(1e-300, float(np.nanmax(np.abs(ref))) if np.isfinite(ref).any() else 0.0,
+                    float(np.abs(data).max()) / float(np.min(grid.discretization)) ** 2)
+        out["scale"] = scale
+        if not np.isfinite(ref).all():
+            # the operator reads ghost cells the condition does not define: the reference itself is
+            # undefined (depends on uninitialised memory in the package) - nothing to compare
+            out["ill_posed"] = True
+            out["stage"] = "done"
+            return out
         # the same through the public route (operator with BCs)
         ref2 = grid.make_operator(spec["op"], bc=bc, backend=backend)(data)
-        if not np.allclose(ref, ref2, rtol=1e-12, atol=1e-12):
-            fail("operator with BCs differs from set_ghost_cells + operator without BCs on the base grid")
+        if ref2.shape != ref.shape or not float(np.abs(ref - ref2).max()) <= 1e-10 * scale:
+            fail("operator with BCs differs from set_ghost_cells + operator without BCs on the base grid", "base-route")
 
         out["stage"] = "mesh"
         mesh = GridMesh.from_grid(grid, spec["dec"])
         n = len(mesh)
         out["len"] = n
+        out["dec"] = [int(x) for x in mesh.shape]
         out["axes"] = []
         for ax in range(na):
             ids = [0] * na
@@ -553,77 +754,153 @@ def op_worker(spec):
             mpi.rank = node
             sg = mesh[node]
             valid = mesh.extract_field_data(data, node)
-            f = np.full((grid.dim,) * info.rank_in + tuple(sg._shape_full), np.nan)
+            f = np.full(lead_in + tuple(sg._shape_full), np.nan)
             f[(...,) + sg._idx_valid] = valid
             fulls.append(f)
             bcs.append(sg.get_boundary_conditions(bc, rank=info.rank_in))
-        out["stage"] = "exchange"
-        n_mpi = 0
-        for axis in range(na):
-            for node in range(n):  # phase 1: everybody sends
-                mpi.rank = node
-                b = bcs[node][axis]
-                for side in (b.low, b.high):
-                    if isinstance(side, _MPIBC):
-                        n_mpi += 1
-                        side.send_ghost_cells(fulls[node])
-            for node in range(n):  # phase 2: everybody sets its ghost cells
-                mpi.rank = node
-                b = bcs[node][axis]
-                b.high.set_ghost_cells(fulls[node])
-                b.low.set_ghost_cells(fulls[node])
-        for p in box.problems:
-            fail("exchange: " + p)
-        if box.box:
-            fail(f"exchange: undelivered messages {sorted(box.box)}")
+        mpi.rank = 0
+        n_mpi = sum(isinstance(side, _MPIBC) for b in bcs for axb in b for side in (axb.low, axb.high))
         out["n_mpi_faces"] = n_mpi
-        # ghost cells of the sub-grids == the base padded array on the same positions (faces only)
+        out["stage"] = "exchange"
+        # every node sets all its ghost cells with the package's own axis-level routine
+        box.run_nodes(n, lambda node: bcs[node].set_ghost_cells(fulls[node]))
+        for p in box.problems:
+            fail("exchange: " + p, "exchange")
+        if box.box:
+            fail(f"exchange: undelivered messages {sorted(box.box)}", "exchange")
+        if box.n_sent != n_mpi:
+            fail(f"exchange: {box.n_sent} messages sent for {n_mpi} faces with a neighbour", "exchange")
+        # ghost cells of the sub-grids == the base padded array on the same positions (faces only:
+        # corners/edges are not exchanged and not used by the operators)
         dg = mesh._get_data_indices(True)
+        anti = [ax for ax in anti_axes(spec) if out["dec"][ax] >= 2]
         sub_full = []
-        fscale = max(1.0, float(np.abs(full).max()))
+        fscale = max(1.0, float(np.nanmax(np.abs(full))))
+        ghost_syms = set()
         for node in range(n):
             sl = dg[mesh._id2idx(node)]
             exp = full[(...,) + tuple(sl)]
             got = fulls[node]
-            mask = np.ones(got.shape[-na:], dtype=bool)
-            if na > 1:  # corners/edges are not exchanged and not used by the operators
-                cnt = np.zeros(got.shape[-na:], dtype=int)
-                for j, sz in enumerate(got.shape[-na:]):
-                    e = np.zeros(sz, dtype=int)
-                    e[0] = e[-1] = 1
-                    cnt = cnt + e.reshape([-1 if k == j else 1 for k in range(na)])
-                mask = cnt <= 1
+            cnt = _ghost_count(got.shape[-na:], na)
+            mask = cnt <= 1
             if exp.shape != got.shape:
-                fail(f"node {node}: padded sub-array has shape {got.shape}, block of the base padded array {exp.shape}")
+                fail(f"node {node}: padded sub-array has shape {got.shape}, block of the base padded array {exp.shape}", "ghost")
+                ghost_syms.add("ghost")
             else:
-                d = np.abs(np.where(mask, got - exp, 0.0))
-                if np.isnan(d).any() or d.max() > 1e-11 * fscale:
-                    fail(f"node {node}: padded sub-array differs from the block of the base padded array")
+                bad = ~_same(got, exp, 1e-11 * fscale) & mask
+                if bad.any():
+                    # is it exactly the sign across the seam of a split anti-periodic axis?
+                    seam = np.zeros(got.shape[-na:], dtype=bool)
+                    idx = mesh._id2idx(node)
+                    for ax in anti:
+                        ind = [slice(None)] * na
+                        if idx[ax] == 0:
+                            ind[ax] = 0
+                            seam[tuple(ind)] = True
+                        if idx[ax] == out["dec"][ax] - 1:
+                            ind[ax] = -1
+                            seam[tuple(ind)] = True
+                    sign_only = not (bad & ~seam).any() and bool(np.all(_same(got, -exp, 1e-11 * fscale)[bad]))
+                    sym = "ghost-antiperiodic-sign" if sign_only else "ghost"
+                    ghost_syms.add(sym)
+                    w = np.argwhere(bad)[0]
+                    fail(f"node {node}: padded sub-array differs from the block of the base padded array at {w.tolist()}: "
+                         f"{got[tuple(w)]!r} != {exp[tuple(w)]!r}", sym)
+            # what the model sees: component 0, faces with a neighbour
+            mpi_face = np.zeros(got.shape[-na:], dtype=bool)
+            for ax in range(na):
+                for up in (False, True):
+                    if isinstance(bcs[node][ax][up], _MPIBC):
+                        ind = [slice(1, -1)] * na
+                        ind[ax] = -1 if up else 0
+                        mpi_face[tuple(ind)] = True
+            flip = [[(bool(getattr(bcs[node][ax][up], "flip_sign", False)) if isinstance(bcs[node][ax][up], _MPIBC) else None)
+                     for up in (False, True)] for ax in range(na)]
             sub_full.append({"shape": [int(x) for x in got.shape[-na:]], "mask": [bool(x) for x in mask.ravel()],
-                             "data": [float(x) for x in np.where(mask, got, 0.0).reshape(-1, mask.size)[0]]})
+                             "mpi_face": [bool(x) for x in mpi_face.ravel()], "flip": flip,
+                             "data": [float(x) for x in got.reshape(-1, mask.size)[0]]})
         out["sub_full"] = sub_full
         out["base_full0"] = [float(x) for x in full.reshape(-1, int(np.prod(full.shape[-na:])))[0]]
+        out["base_valid0"] = [float(x) for x in data.reshape(-1, int(np.prod(data.shape[-na:])))[0]]
         # the operator on every sub-grid
         out["stage"] = "operator"
         res = []
         for node in range(n):
             sg = mesh[node]
-            o = np.empty((grid.dim,) * info.rank_out + tuple(sg.shape))
+            o = np.full(lead_out + tuple(sg.shape), np.nan)
             sg.make_operator_no_bc(spec["op"], backend=backend)(fulls[node], o)
             res.append(o)
         comb = mesh.combine_field_data(res)
-        scale = max(1e-300, float(np.abs(ref).max()), float(np.abs(data).max()) / float(np.min(grid.discretization)) ** 2)
         dev = float(np.abs(comb - ref).max()) if comb.shape == ref.shape else math.inf
         out["dev"] = dev / scale
         if not dev <= 1e-10 * scale:
-            fail(f"operator on the sub-grids differs from the operator on the whole grid by {dev!r} (scale {scale!r})")
+            only_sign = ghost_syms == {"ghost-antiperiodic-sign"}
+            fail(f"operator on the sub-grids differs from the operator on the whole grid by {dev!r} (scale {scale!r})",
+                 "operator-antiperiodic-sign" if only_sign else "operator")
         out["nonzero"] = bool(np.abs(ref).max() > 0)
+        out["result0"] = [float(x) for x in comb.reshape(-1, int(np.prod(comb.shape[-na:])))[0]] \
+            if comb.shape == ref.shape else None
+        out["ref0"] = [float(x) for x in ref.reshape(-1, int(np.prod(ref.shape[-na:])))[0]]
+        out["dx"] = [float(x) for x in grid.discretization]
+
+        if source_mode:
+            only_sign = ghost_syms <= {"ghost-antiperiodic-sign"}
+            # ---- the ghost-cell setters of the numba_mpi backend (own copy of the index constants) ----
+            out["stage"] = "numba_mpi setters"
+            mback = _mpi_backend()
+            fulls2 = []
+            for node in range(n):
+                f = np.full_like(fulls[node], np.nan)
+                f[(...,) + mesh[node]._idx_valid] = mesh.extract_field_data(data, node)
+                fulls2.append(f)
+            box2 = _Mailbox()
+            mpi.mpi_send, mpi.mpi_recv = box2.send, box2.recv
+            setters = []
+            for node in range(n):
+                mpi.rank = node
+                setters.append(mback.make_ghost_cell_setter(bcs[node]))
+            mpi.rank = 0
+            box2.run_nodes(n, lambda node: setters[node](fulls2[node]))
+            for p in box2.problems:
+                fail("numba_mpi setters: " + p, "compiled-setter")
+            if box2.box or box2.n_sent != n_mpi:
+                fail(f"numba_mpi setters: {box2.n_sent} messages for {n_mpi} faces, undelivered {sorted(box2.box)[:4]}",
+                     "compiled-setter")
+            for node in range(n):
+                cnt = _ghost_count(fulls[node].shape[-na:], na)
+                if not np.all(_same(fulls2[node], fulls[node], 1e-11 * fscale) | (cnt > 1)):
+                    fail(f"node {node}: the ghost-cell setter of the numba_mpi backend and BoundariesList.set_ghost_cells "
+                         "leave different padded arrays", "compiled-setter")
+                    break
+            # ---- the public route: subgrid.make_operator(op, bc) on every node ----------------------
+            out["stage"] = "public route"
+            box3 = _Mailbox()
+            mpi.mpi_send, mpi.mpi_recv = box3.send, box3.recv
+            res3 = [None] * n
+
+            def public(node):
+                sg = mesh[node]
+                res3[node] = sg.make_operator(spec["op"], bc=bc, backend=mback)(mesh.extract_field_data(data, node).copy())
+
+            box3.run_nodes(n, public)
+            for p in box3.problems:
+                fail("public route: " + p, "public-route")
+            if all(r is not None for r in res3):
+                comb3 = mesh.combine_field_data(res3)
+                dev3 = float(np.abs(comb3 - ref).max()) if comb3.shape == ref.shape else math.inf
+                out["dev_public"] = dev3 / scale
+                if not dev3 <= 1e-10 * scale:
+                    fail(f"subgrid.make_operator(op, bc) on the sub-grids differs from the operator on the whole grid by "
+                         f"{dev3!r} (scale {scale!r})", "operator-antiperiodic-sign" if only_sign and anti else "public-route")
+            else:
+                fail("public route: a node returned no result", "public-route")
         out["stage"] = "done"
     except Exception as e:  # noqa: BLE001
         out["error"] = f"{type(e).__name__}: {e} :: {traceback.format_exc()[-500:]}"
         out["error_class"] = classify_op_error(e)
     finally:
-        mpi.mpi_send, mpi.mpi_recv, mpi.rank = old
+        mpi.mpi_send, mpi.mpi_recv = old
+        mpi.__class__ = old_cls
     return out
 
 
@@ -759,16 +1036,49 @@ def gen_malformed(ctx):
             sp = {"cls": "CylindricalSymGrid", "shape": [nr, nz], "bounds": [[rng.choice([0.5, 1]), 2.0], [0, 3.0]],
                   "periodic": [False, rng.random() < 0.5], "dec": [rng.randint(1, nr + 1), rng.randint(1, nz + 1)]}
         sp["malformed"] = kind
+        # the branches of `from_grid` that depend on the number of MPI nodes (`-1` entries, node count check)
+        sp["mpi_size"] = rng.choice([1, 1, 2, 3, 4, 6, 8, 12]) if kind in ("minus-one", "bad-list") or rng.random() < 0.25 else 1
+        specs.append(sp)
+    # admissible decompositions under `mpi.size > 1`: accepted iff the node count matches
+    for _ in range(ctx.budget(30, 300)):
+        dim = rng.choice([1, 2, 3])
+        shape = [rng.randint(1, 6) for _ in range(dim)]
+        dec = [rng.randint(1, n) for n in shape]
+        if rng.random() < 0.4:
+            dec[rng.randrange(dim)] = -1
+        sp = cart_spec(rng, shape, dec, [rng.random() < 0.5 for _ in range(dim)])
+        prod = math.prod(d for d in dec if d > 0)
+        sp["mpi_size"] = rng.choice([prod, prod, prod * rng.randint(1, 3), rng.randint(1, 12)])
+        sp["malformed"] = "node-count"
         specs.append(sp)
     return specs
 
 
-def bc_for(rng, spec, rank_in, grid_axes):
-    """boundary condition data in the package's vocabulary: periodic axes get 'periodic'"""
+RANK_IN = {"laplace": 0, "gradient": 0, "gradient_squared": 0, "divergence": 1, "vector_laplace": 1,
+           "vector_gradient": 1, "tensor_divergence": 2}
+GRID_DIM = {"UnitGrid": None, "CartesianGrid": None, "SphericalSymGrid": 3, "PolarSymGrid": 2, "CylindricalSymGrid": 3}
+
+
+def periodic_bc(rng, anti=None):
+    """the package's spellings of a (anti-)periodic condition for a periodic axis"""
+    if anti is None:
+        anti = rng.random() < 0.5
+    if anti:
+        return rng.choice(["anti-periodic", "anti-periodic", {"type": "anti-periodic"}])
+    return rng.choice(["periodic", "periodic", {"type": "periodic"}, "auto_periodic_neumann"])
+
+
+def bc_for(rng, spec, rank_in, grid_axes, op=None, anti=None):
+    """boundary condition data in the package's vocabulary.  Periodic axes get 'periodic' or
+    'anti-periodic' (all spellings); the other faces draw from value/derivative/mixed/curvature with
+    uniform or per-component values, conditions on the normal component only (where the operator
+    reads nothing else), and - for scalars - coordinate-dependent expressions"""
     bc = {}
+    dim = GRID_DIM[spec["cls"]] or len(spec["shape"])
+    percomp = spec["cls"] in ("UnitGrid", "CartesianGrid", "CylindricalSymGrid")
     for ax, name in enumerate(grid_axes):
         if spec["periodic"][ax]:
-            bc[name] = "periodic"
+            bc[name] = periodic_bc(rng, anti)
             continue
         kinds = ["value", "derivative", "neumann", "dirichlet", "mixed"]
         if spec["shape"][ax] >= 2:  # CurvatureBC needs two support points on any grid
@@ -800,17 +1110,73 @@ def bc_for(rng, spec, rank_in, grid_axes):
                     return {"type": "mixed", "value": rng.choice([0.5, 2.0]), "const": rng.choice([0.0, 1.0])}
                 return {k: rng.choice([0.0, 1.5, -0.75, 2.0])}
         else:
+            def tensor(r):
+                """a value per component (shape (dim,)*r), as nested lists"""
+                vals = [rng.choice([0.0, 1.5, -0.75, 2.0, 0.5]) for _ in range(dim ** r)]
+                return np.array(vals).reshape((dim,) * r).tolist()
+
+            kinds_r = ["value", "derivative", "mixed", "value", "derivative"]
+            if spec["shape"][ax] >= 2:
+                kinds_r.append("curvature")
+            if percomp:
+                kinds_r += ["value-comp", "derivative-comp", "mixed-comp"] + (["curvature-comp"] if spec["shape"][ax] >= 2 else [])
+            if op in ("divergence", "tensor_divergence"):
+                # these operators read only the normal component(s) across a face
+                kinds_r += ["normal_value", "normal_derivative", "normal_mixed"] + (
+                    ["normal_curvature"] if spec["shape"][ax] >= 2 else [])
+
             def one():
-                return rng.choice([{"derivative": 0}, {"value": 0}, {"value": 1.5}, {"derivative": -0.5}])
+                k = rng.choice(kinds_r)
+                c = rng.choice([0.0, 1.5, -0.5, 2.0])
+                if k == "mixed":
+                    return {"type": "mixed", "value": rng.choice([0.5, 2.0]), "const": rng.choice([0.0, 1.0])}
+                if k == "mixed-comp":
+                    return {"type": "mixed", "value": rng.choice([0.5, 2.0]), "const": tensor(rank_in)}
+                if k.endswith("-comp"):
+                    return {k[:-5]: tensor(rank_in)}
+                if k == "normal_mixed":
+                    return {"type": "normal_mixed", "value": rng.choice([0.5, 2.0]), "const": rng.choice([0.0, 1.0])}
+                if k.startswith("normal_"):
+                    return {k: c if (rank_in == 1 or not percomp or rng.random() < 0.5) else tensor(rank_in - 1)}
+                return {k: c}
         bc[name + "-"] = one()
         bc[name + "+"] = one()
     return bc
 
 
+def bc_label(side):
+    """histogram label of one entry of a boundary-condition dictionary"""
+    if isinstance(side, str):
+        return side
+    t = side.get("type")
+    if t:
+        return t + ("[per-component]" if isinstance(side.get("const"), list) else "")
+    k = next(iter(side))
+    v = side[k]
+    return k + ("[per-component]" if isinstance(v, list) and not side.get("_inhom") else "") + (
+        "[varies along the face]" if side.get("_inhom") else "")
+
+
+def strip_bc(bc):
+    """the dictionary handed to the package (without the generator's private markers)"""
+    return {k: ({a: b for a, b in v.items() if not a.startswith("_")} if isinstance(v, dict) else v) for k, v in bc.items()}
+
+
+def op_for(rng, fam):
+    if fam.startswith("cart"):
+        return rng.choice(["laplace", "gradient", "divergence", "laplace", "vector_laplace", "tensor_divergence",
+                           "vector_gradient", "gradient_squared"])
+    if fam in ("sph", "polar"):
+        return rng.choice(["laplace", "gradient", "divergence", "laplace", "gradient_squared", "vector_gradient",
+                           "tensor_divergence"])
+    return rng.choice(["laplace", "gradient", "divergence", "laplace", "vector_laplace", "gradient_squared",
+                       "tensor_divergence", "vector_gradient"])
+
+
 def gen_op_specs(ctx):
     rng = ctx.rng
     specs = []
-    n = ctx.budget(260, 4000)
+    n = ctx.budget(230, 3000)
     for i in range(n):
         fam = rng.choice(["cart1", "cart2", "cart2", "cart3", "sph", "polar", "cyl", "cyl"])
         if fam.startswith("cart"):
@@ -822,29 +1188,64 @@ def gen_op_specs(ctx):
             dec = [rng.randint(1, s) for s in shape]
             sp = cart_spec(rng, shape, dec, per)
             names = ["x", "y", "z"][:dim]
-            op = rng.choice(["laplace", "gradient", "divergence", "laplace", "vector_laplace", "tensor_divergence",
-                             "vector_gradient", "gradient_squared"])
         elif fam in ("sph", "polar"):
             nn = rng.randint(2, 12)
             sp = {"cls": "SphericalSymGrid" if fam == "sph" else "PolarSymGrid", "shape": [nn],
                   "bounds": [radial_bounds(rng)], "periodic": [False], "dec": [rng.randint(1, nn)]}
             names = ["r"]
-            op = rng.choice(["laplace", "gradient", "divergence", "laplace", "gradient_squared", "vector_gradient",
-                             "tensor_divergence"])
         else:
             nr, nz = rng.randint(1, 5), rng.randint(2, 8)
             zb = rand_bounds(rng, 1)[0]
             sp = {"cls": "CylindricalSymGrid", "shape": [nr, nz], "bounds": [[0, rng.choice([1, 2.5, 3])], zb],
                   "periodic": [False, rng.random() < 0.4], "dec": [1, rng.randint(1, nz)]}
             names = ["r", "z"]
-            op = rng.choice(["laplace", "gradient", "divergence", "laplace", "vector_laplace", "gradient_squared",
-                             "tensor_divergence", "vector_gradient"])
-        rank_in = {"laplace": 0, "gradient": 0, "gradient_squared": 0, "divergence": 1, "vector_laplace": 1,
-                   "vector_gradient": 1, "tensor_divergence": 2}[op]
+        op = op_for(rng, fam)
         sp["op"] = op
-        sp["bc"] = bc_for(rng, sp, rank_in, names)
+        sp["bc"] = bc_for(rng, sp, RANK_IN[op], names, op=op)
         sp["data_seed"] = rng.randrange(2 ** 31)
         sp["backend"] = "numba"
+        specs.append(sp)
+    # anti-periodic seams: a periodic axis that IS split carries an anti-periodic condition (every rank,
+    # 2 chunks = the same neighbour on both sides, 3+ chunks = interior faces that must not flip)
+    for _ in range(ctx.budget(36, 300)):
+        fam = rng.choice(["cart1", "cart2", "cart2", "cart3", "cyl"])
+        if fam == "cyl":
+            nr, nz = rng.randint(1, 4), rng.randint(2, 8)
+            sp = {"cls": "CylindricalSymGrid", "shape": [nr, nz], "bounds": [[0, rng.choice([1, 2.5])], rand_bounds(rng, 1)[0]],
+                  "periodic": [False, True], "dec": [1, rng.randint(2, nz)]}
+            names = ["r", "z"]
+        else:
+            dim = int(fam[-1])
+            shape = [rng.randint(2, [12, 7, 4][dim - 1]) for _ in range(dim)]
+            k = rng.randrange(dim)
+            per = [j == k or rng.random() < 0.4 for j in range(dim)]
+            dec = [rng.randint(2, shape[j]) if j == k else rng.randint(1, shape[j]) for j in range(dim)]
+            sp = cart_spec(rng, shape, dec, per)
+            names = ["x", "y", "z"][:dim]
+        op = op_for(rng, fam)
+        sp["op"] = op
+        sp["bc"] = bc_for(rng, sp, RANK_IN[op], names, op=op, anti=True)
+        sp["data_seed"] = rng.randrange(2 ** 31)
+        sp["backend"] = "numba"
+        sp["stream"] = "anti-periodic seam"
+        specs.append(sp)
+    # a value that varies along the face (the package refuses to move it to a sub-grid)
+    for _ in range(ctx.budget(6, 40)):
+        shape = [rng.randint(2, 6), rng.randint(2, 5)]
+        k = rng.randrange(2)
+        dec = [rng.randint(1, s) for s in shape]
+        if math.prod(dec) == 1:
+            dec[k] = 2
+        sp = cart_spec(rng, shape, dec, [False, False])
+        sp["op"] = rng.choice(["laplace", "gradient"])
+        bc = bc_for(rng, sp, 0, ["x", "y"], op=sp["op"])
+        nm = ["x", "y"][k] + rng.choice("-+")
+        kind = rng.choice(["value", "derivative"])
+        bc[nm] = {kind: [round(rng.uniform(-1, 1), 3) for _ in range(shape[1 - k])], "_inhom": True}
+        sp["bc"] = bc
+        sp["data_seed"] = rng.randrange(2 ** 31)
+        sp["backend"] = "numba"
+        sp["stream"] = "value varies along the face"
         specs.append(sp)
     # regression leg (finding fixed in /repo 63c0e4e, key call_site=_PeriodicBC.to_subgrid): a periodic axis
     # that is NOT split, another axis that is, and a field of rank >= 1
@@ -859,10 +1260,10 @@ def gen_op_specs(ctx):
         sp = cart_spec(rng, shape, dec, per)
         op = rng.choice(["divergence", "vector_laplace", "vector_gradient", "tensor_divergence"])
         sp["op"] = op
-        sp["bc"] = bc_for(rng, sp, 2 if op == "tensor_divergence" else 1, ["x", "y", "z"][:dim])
+        sp["bc"] = bc_for(rng, sp, 2 if op == "tensor_divergence" else 1, ["x", "y", "z"][:dim], op=op)
         sp["data_seed"] = rng.randrange(2 ** 31)
         sp["backend"] = "numba"
-        sp["regression"] = "periodic-rank"
+        sp["stream"] = "unsplit periodic axis, rank >= 1"
         specs.append(sp)
     return specs
 
@@ -875,13 +1276,119 @@ def curvature_refusal_expected(sp, ob):
     axes = ob.get("axes")
     if not axes:
         return False
-    names = {"cartesian": ["x", "y", "z"], "spherical": ["r"], "polar": ["r"], "cylindrical": ["r", "z"]}[KINDS[sp["cls"]]]
+    names = AXIS_NAMES[KINDS[sp["cls"]]]
     for ax, nm in enumerate(names[:len(axes)]):
         for side, k in (("-", 0), ("+", -1)):
             b = sp["bc"].get(nm + side)
-            if isinstance(b, dict) and "curvature" in b and axes[ax][k] == 1:
+            if isinstance(b, dict) and any("curvature" in str(key) for key in b) and axes[ax][k] == 1 \
+                    and len(axes[ax]) >= 2:
                 return True
     return False
+
+
+def inhomogeneous_refusal_expected(sp, ob):
+    """a value that varies along the face, on an axis/side where some sub-grid keeps that outer face
+    while the mesh has more than one node"""
+    return ob.get("len", 1) >= 2 and any(isinstance(b, dict) and b.get("_inhom") for b in sp["bc"].values())
+
+
+def judge_op(sp, ob):
+    """verdicts of the property monitor for one executed operator case:
+    -> (outcome label, [(observed, expected, what, key), ...])"""
+    fails = []
+    if ob["error"] is not None:
+        cls_ = ob["error_class"]
+        obs = {"error": ob["error"][:400], "stage": ob["stage"]}
+        if cls_ == "curvature-one-cell" and curvature_refusal_expected(sp, ob):
+            # literal violation of the last clause: the base grid accepts the condition, the sub-grid with a
+            # single cell at that outer face raises (CurvatureBC needs the cell of the neighbouring sub-grid)
+            return "RuntimeError: curvature BC on a single-cell chunk at an outer face", [
+                (obs, "the global boundary condition can be applied on every sub-grid with an outer face",
+                 "curvature condition refused on a one-cell chunk at an outer face", KEY_CURV)]
+        if cls_ == "inhomogeneous-refused" and inhomogeneous_refusal_expected(sp, ob):
+            return "NotImplementedError: value varying along the face cannot be moved to a sub-grid", [
+                (obs, "the global boundary condition can be applied on every sub-grid with an outer face",
+                 "a boundary value that varies along the face is refused on the sub-grids", KEY_INHOM)]
+        if cls_ == "periodic-rank":
+            return "BCDataError: periodic BC of an unsplit axis lost its rank", [
+                (obs, "boundary conditions of a vector/tensor field can be built on every sub-grid",
+                 "periodic BC of an unsplit axis loses its rank on the sub-grid",
+                 {"call_site": "_PeriodicBC.to_subgrid", "symptom": "rank dropped"})]
+        if cls_ == "expression-const":
+            return "TypeError: value/derivative expression BC cannot be moved to a sub-grid", [
+                (obs, "the global boundary condition can be stated on every sub-grid with an outer face",
+                 "value_expression/derivative_expression BC cannot be transferred to a sub-grid",
+                 {"call_site": "ExpressionBC.to_subgrid", "symptom": "const kwarg"})]
+        return f"error at stage {ob['stage']}", [
+            ({"error": ob["error"], "stage": ob["stage"]}, "operator on sub-grids == operator on the grid",
+             "operator equivalence could not be executed", KEY_GENERIC)]
+    if ob.get("ill_posed"):
+        return "reference undefined (operator reads ghost cells the condition does not set)", []
+    seen = set()
+    for m in ob["monitor"]:
+        sym = m["sym"]
+        if sym in seen:
+            continue
+        seen.add(sym)
+        if sym in ("ghost-antiperiodic-sign", "operator-antiperiodic-sign"):
+            what = ("ghost cells across the seam of a split anti-periodic axis arrive without the sign" if sym.startswith("ghost")
+                    else "operator on the sub-grids is wrong next to the seam of a split anti-periodic axis")
+            key = KEY_ANTI
+        else:
+            what = {"ghost": "ghost cells of a sub-grid != the padded base array", "operator": "operator equivalence",
+                    "exchange": "ghost-cell exchange (messages)", "base-route": "operator with BCs on the base grid",
+                    "compiled-setter": "ghost-cell setters of the numba_mpi backend",
+                    "public-route": "subgrid.make_operator(op, bc)"}.get(sym, "operator equivalence")
+            key = KEY_GENERIC
+        fails.append(({"problem": m["msg"], "dev": ob.get("dev"), "dev_public": ob.get("dev_public")},
+                      "operator on sub-grids == operator on the grid", what, key))
+    return "executed", fails
+
+
+OP_ENV = {"S": {"NUMBA_DISABLE_JIT": "1", "OMP_NUM_THREADS": "1", "NUMBA_NUM_THREADS": "1"},
+          "J": {"NUMBA_DISABLE_JIT": "0", "OMP_NUM_THREADS": "1", "NUMBA_NUM_THREADS": "1"}}
+
+
+def op_case(sp, mode):
+    c = dict(case_key(sp), leg="operator", op=sp["op"], bc=sp["bc"], data_seed=sp["data_seed"], mode=mode)
+    return c
+
+
+def effective_dec(sp):
+    """the decomposition `from_grid` is asked for according to its documentation (`-1` = number of MPI nodes //
+    product of the other entries, missing axes = 1); None if the request itself is malformed"""
+    dec = [int(d) for d in sp["dec"]]
+    size = int(sp.get("mpi_size", 1))
+    if any(d == 0 or d < -1 for d in dec) or dec.count(-1) > 1 or len(dec) > len(sp["shape"]):
+        return None
+    if -1 in dec:
+        rest = math.prod(d for d in dec if d > 0)
+        if size // rest == 0:
+            return None
+        dec = [size // rest if d == -1 else d for d in dec]
+    return dec + [1] * (len(sp["shape"]) - len(dec))
+
+
+def malformed_judge(sp, ob):
+    """monitor of the admissibility clause: an inadmissible request must raise, an admissible one must be accepted
+    with exactly the requested number of sub-grids per axis -> [(observed, expected, what)]"""
+    dec = effective_dec(sp)
+    size = int(sp.get("mpi_size", 1))
+    inadmissible = (dec is None or any(d > n for d, n in zip(dec, sp["shape"]))
+                    or (size > 1 and math.prod(dec) != size)
+                    or (sp["cls"] == "CylindricalSymGrid" and (dec[0] > 1 or (sp["bounds"][0][0] != 0 and dec[1] > 1)))
+                    or bool(sp.get("nested")))
+    out = []
+    if inadmissible and ob["outcome"] == "ok":
+        out.append((ob, "must raise", "inadmissible decomposition accepted"))
+    if not inadmissible and ob["outcome"] != "ok":
+        out.append((ob, "must be accepted", "admissible decomposition refused"))
+    if not inadmissible and ob["outcome"] == "ok" and ob["dec"] != dec:
+        out.append((ob, {"dec": dec}, "mesh.shape differs from the requested decomposition"))
+    if ob["outcome"] == "ok" and sp["cls"] == "CylindricalSymGrid":
+        if any(not abs(b[0][0] - sp["bounds"][0][0]) <= 0 for b in ob["sub_bounds"]):
+            out.append((ob, "inner radius kept", "cylinder sub-grid lost its inner radius"))
+    return out
 
 
 def vol_from_coef(kind, coef):
@@ -949,17 +1456,30 @@ def compare_mesh(ctx, spec, obs, ans):
         for i, rec in enumerate(b):
             mb = [[float(unq(x)) for x in p] for p in rec["bounds"]]
             rb = obs["sub_bounds"][i]
-            if len(mb) != len(rb) or any(abs(x - y) > 1e-12 * scale for p, r in zip(mb, rb) for x, y in zip(p, r)):
+            if len(mb) != len(rb) or any(not abs(x - y) <= 1e-12 * scale for p, r in zip(mb, rb) for x, y in zip(p, r)):
                 bad.append((f"sub_bounds[{i}]", mb, rb))
                 break
             mc = [[float(unq(x)) for x in c] for c in rec["coords"]]
             rc = obs["sub_coords"][i]
             if [len(c) for c in mc] != [len(c) for c in rc] or any(
-                    abs(x - y) > 1e-12 * scale for c, r in zip(mc, rc) for x, y in zip(c, r)):
+                    not abs(x - y) <= 1e-12 * scale for c, r in zip(mc, rc) for x, y in zip(c, r)):
                 bad.append((f"sub_coords[{i}]", mc, rc))
                 break
+            # per-axis cell volumes from the model's cell edges: F(edge p+1) - F(edge p)
+            if "sub_cell_volume_data" in obs:
+                for ax, (edges, real) in enumerate(zip(rec["edges"], obs["sub_cell_volume_data"][i])):
+                    ex = [unq(x) for x in edges]
+                    if kind == "spherical":
+                        mvol = [4 * math.pi / 3 * float(b_ ** 3 - a_ ** 3) for a_, b_ in zip(ex, ex[1:])]
+                    elif kind in ("polar", "cylindrical") and ax == 0:
+                        mvol = [math.pi * float(b_ ** 2 - a_ ** 2) for a_, b_ in zip(ex, ex[1:])]
+                    else:
+                        mvol = [float(b_ - a_) for a_, b_ in zip(ex, ex[1:])]
+                    if len(mvol) != len(real) or any(not abs(x - y) <= 1e-11 * max(abs(x), 1e-12 * scale) for x, y in zip(mvol, real)):
+                        bad.append((f"cell_volume_data[{i}][axis {ax}]", mvol, real))
+                        break
             mv = vol_from_coef(kind, float(unq(rec["vol"])))
-            if abs(mv - obs["sub_volume"][i]) > 1e-11 * abs(mv):
+            if not abs(mv - obs["sub_volume"][i]) <= 1e-11 * abs(mv):
                 bad.append((f"sub_volume[{i}]", mv, obs["sub_volume"][i]))
                 break
     for tag in ("", "_ghost"):
@@ -1032,18 +1552,20 @@ def run(ctx):
     share = [allpairs[i::procs] for i in range(procs)]
     res = run_many("harness.c17", "subdivide_worker", [(s, want) for s in share], env=env, procs=procs)
     sizes = {}
-    nform = 0
+    nform = nrob = 0
     for r in res:
         if isinstance(r, str):
             raise RuntimeError(r)
         sizes.update(r["sizes"])
         nform += r["formula_diff"]
+        nrob += r["robust_diff"]
         ctx.monitor_evals += r["n"]
         for num, c, s, what in r["bad"]:
             ctx.monitor_fail("subdivide", {"num": num, "chunks": c}, {"sizes": s}, what,
                              "_subdivide contract", key={"call_site": "_subdivide"})
     ctx.hist("subdivide", "pairs checked against the contract (monitor)", len(allpairs))
     ctx.hist("subdivide", "pairs where linspace differs from floor(i*num/chunks) (informative)", nform)
+    ctx.hist("subdivide", "pairs outside the hypothesis of theorem subdivide_robust (informative)", nrob)
     ctx.evaluations += len(allpairs) - len(want)  # monitor-only pairs (not individually keyed)
     reqs, meta = [], []
     for (num, c) in want:
@@ -1124,7 +1646,7 @@ def run(ctx):
         r0nz = bool(sp["bounds"][0][0] != 0) and sp["cls"] == "CylindricalSymGrid"
         mal_index.append(len(reqs))
         reqs.append(("c17.outcome", {"kind": KINDS[sp["cls"]], "r0nz": r0nz, "shape": sp["shape"],
-                                     "dec": [int(d) for d in sp["dec"]], "mpi_size": 1}))
+                                     "dec": [int(d) for d in sp["dec"]], "mpi_size": int(sp.get("mpi_size", 1))}))
 
     # ---- leg 4: _MPIBC index pairs ---------------------------------------------------------------
     mp_index = len(reqs)
@@ -1153,6 +1675,16 @@ def run(ctx):
         if not (val["contract"] and val["balanced"]):
             ctx.disagree("subdivide", case, {"contract": val["contract"], "balanced": val["balanced"]}, s,
                          "real sizes do not meet the contract according to the model")
+        # the model's own definitions must be consistent: `subdivideLin` at Rat is the integer formula
+        # (theorem `subdivideLin_exact`), and its Float sizes meet the contract
+        if val["lin_exact"] != val["ref"] or not val["lin_contract_balanced"]:
+            ctx.disagree("subdivide", case, {"lin_exact": val["lin_exact"], "ref": val["ref"],
+                                             "lin_contract_balanced": val["lin_contract_balanced"]}, s,
+                         "model inconsistency: subdivideLin at Rat != integer formula, or its Float sizes break the contract")
+        # informative (a different formula that keeps the contract is a harmless change): the bit-for-bit replay
+        # of np.linspace(...).astype(int) at Float, and the integer formula
+        ctx.hist("subdivide-vs-model", "equal to the Float replay of np.linspace" if val["lin"] == s
+                 else "different from the Float replay of np.linspace (contract kept)")
         ctx.hist("subdivide-vs-formula", "equal" if val["ref"] == s else "different (contract kept)")
 
     # mesh answers
@@ -1167,29 +1699,22 @@ def run(ctx):
     # malformed answers
     for sp, ob, ri in zip(mal, mal_obs, mal_index):
         st, val = answers[ri]
-        case = dict(case_key(sp), leg="malformed")
+        case = dict(case_key(sp), leg="malformed", mpi_size=int(sp.get("mpi_size", 1)))
         exp_err = (val["outcome"] != "ok") if st == "ok" else None
-        ctx.count(case, nontrivial=bool(exp_err), leg="malformed")
+        ctx.count(case, nontrivial=bool(exp_err) or sp["malformed"] == "node-count", leg="malformed")
         ctx.impl_traces += 1
         ctx.monitor_evals += 1
         ctx.hist("malformed", f"{sp['malformed']} -> {ob['outcome']}")
+        ctx.hist("mpi.size", sp.get("mpi_size", 1))
         if st != "ok":
             ctx.disagree("malformed", case, val, ob["outcome"], "model error")
             continue
         if val["outcome"] != ob["outcome"]:
             ctx.disagree("malformed", case, val["outcome"], ob["outcome"], "outcome class of from_grid")
-        # monitor: an inadmissible decomposition must raise
-        inadmissible = (len(sp["dec"]) > len(sp["shape"])
-                        or any(d > n for d, n in zip(sp["dec"], sp["shape"]))
-                        or any(d == 0 or d < -1 for d in sp["dec"])
-                        or (sp["cls"] == "CylindricalSymGrid" and (sp["dec"][0] > 1 or (sp["bounds"][0][0] != 0 and sp["dec"][1] > 1))))
-        if inadmissible and ob["outcome"] == "ok":
-            ctx.monitor_fail("malformed", case, ob, "must raise", "inadmissible decomposition accepted",
-                             key={"call_site": "GridMesh.from_grid"})
-        if ob["outcome"] == "ok" and sp["cls"] == "CylindricalSymGrid":
-            if any(abs(b[0][0] - sp["bounds"][0][0]) > 0 for b in ob["sub_bounds"]):
-                ctx.monitor_fail("malformed", case, ob, "inner radius kept", "cylinder sub-grid lost its inner radius",
-                                 key={"call_site": "GridMesh.from_grid"})
+        elif ob["outcome"] == "ok" and val["dec"] != ob["dec"]:
+            ctx.disagree("malformed", case, val["dec"], ob["dec"], "mesh.shape of an accepted decomposition")
+        for observed, expected, what in malformed_judge(sp, ob):
+            ctx.monitor_fail("malformed", case, observed, expected, what, key={"call_site": "GridMesh.from_grid"})
 
     # nested decomposition must raise
     nested = run_many("harness.c17", "malformed_worker",
@@ -1215,76 +1740,120 @@ def run(ctx):
 
     # ---- leg 5: operator equivalence --------------------------------------------------------------
     ops = gen_op_specs(ctx)
-    op_obs = run_many("harness.c17", "op_worker", ops, env=env, procs=16)
-    njit = ctx.budget(4, 32)
-    jit_specs = [dict(s) for s in ops if math.prod(s["dec"]) in (2, 3) and s["op"] in ("laplace", "gradient", "divergence")
-                 and "expr" not in json.dumps(s["bc"]) and "virtual_point" not in json.dumps(s["bc"])][:njit]
-    jit_obs = run_many("harness.c17", "op_worker", jit_specs, env={"OMP_NUM_THREADS": "1", "NUMBA_NUM_THREADS": "1"},
+    op_obs = run_many("harness.c17", "op_worker", ops, env=OP_ENV["S"], procs=16)
+    njit = ctx.budget(6, 40)
+    plain = [s for s in ops if math.prod(s["dec"]) in (2, 3, 4) and s["op"] in ("laplace", "gradient", "divergence")
+             and "expr" not in json.dumps(s["bc"]) and "virtual_point" not in json.dumps(s["bc"])]
+    # the JIT subset always contains anti-periodic seams
+    jit_specs = [dict(s) for s in ([x for x in plain if x.get("stream") == "anti-periodic seam"][:max(2, njit // 3)]
+                                   + [x for x in plain if x.get("stream") != "anti-periodic seam"])[:njit]]
+    jit_obs = run_many("harness.c17", "op_worker", jit_specs, env=OP_ENV["J"],
                        procs=min(16, max(1, len(jit_specs)))) if jit_specs else []
     reqs2, idx2 = [], []
     for mode, sps, obl in (("S", ops, op_obs), ("J", jit_specs, jit_obs)):
         for sp, ob in zip(sps, obl):
             if isinstance(ob, str):
                 raise RuntimeError(ob)
-            case = dict(case_key(sp), leg="operator", op=sp["op"], bc=sp["bc"], data_seed=sp["data_seed"], mode=mode)
-            ok = ob["error"] is None
+            case = op_case(sp, mode)
+            label, fails = judge_op(sp, ob)
+            ok = ob["error"] is None and not ob.get("ill_posed")
             ctx.count(case, nontrivial=ok and ob.get("len", 1) >= 2 and ob.get("nonzero", False), leg=f"operator-{mode}")
             ctx.hist("operator", f"{KINDS[sp['cls']]}:{sp['op']}")
+            ctx.hist("operator-stream", sp.get("stream", "main"))
             for side in sp["bc"].values():
-                ctx.hist("bc", side if isinstance(side, str) else side.get("type") or next(iter(side)))
+                ctx.hist("bc", bc_label(side))
+            split_anti = [ax for ax in anti_axes(sp) if sp["dec"][ax] >= 2]
+            if split_anti:
+                ctx.hist("branch", "anti-periodic axis that is split (sign at the seam)")
+                if any(sp["dec"][ax] >= 3 for ax in split_anti):
+                    ctx.hist("branch", "anti-periodic axis with >= 3 chunks (interior faces must not flip)")
             ctx.monitor_evals += 1
+            ctx.hist("operator-outcome", label)
+            if ob.get("source_mode") != (mode == "S"):
+                raise RuntimeError(f"operator case ran in the wrong execution mode: {mode} vs {ob.get('source_mode')}")
+            for observed, expected, what, key in fails[:3]:
+                ctx.monitor_fail("operator", case, observed, expected, what, key=key)
             if not ok:
-                cls_ = ob["error_class"]
-                if cls_ == "curvature-one-cell" and curvature_refusal_expected(sp, ob):
-                    # CurvatureBC refuses any grid with a single cell along its axis (also a base grid)
-                    ctx.hist("operator-outcome", "refused: curvature BC on a single-cell chunk at an outer face")
-                    continue
-                if cls_ == "periodic-rank":
-                    ctx.hist("operator-outcome", "BCDataError: periodic BC of an unsplit axis lost its rank")
-                    ctx.monitor_fail("operator", case, {"error": ob["error"][:300], "stage": ob["stage"]},
-                                     "boundary conditions of a vector/tensor field can be built on every sub-grid",
-                                     "periodic BC of an unsplit axis loses its rank on the sub-grid",
-                                     key={"call_site": "_PeriodicBC.to_subgrid", "symptom": "rank dropped"})
-                    continue
-                if cls_ == "expression-const":
-                    ctx.hist("operator-outcome", "TypeError: value/derivative expression BC cannot be moved to a sub-grid")
-                    ctx.monitor_fail("operator", case, {"error": ob["error"][:300], "stage": ob["stage"]},
-                                     "the global boundary condition can be stated on every sub-grid with an outer face",
-                                     "value_expression/derivative_expression BC cannot be transferred to a sub-grid",
-                                     key={"call_site": "ExpressionBC.to_subgrid", "symptom": "const kwarg"})
-                    continue
-                ctx.hist("operator-outcome", f"error at stage {ob['stage']}")
-                ctx.monitor_fail("operator", case, {"error": ob["error"], "stage": ob["stage"]},
-                                 "operator on sub-grids == operator on the grid",
-                                 "operator equivalence could not be executed", key={"call_site": "GridMesh/_MPIBC"})
                 continue
-            ctx.hist("operator-outcome", "executed")
             ctx.hist("mpi faces", ob["n_mpi_faces"] if ob["n_mpi_faces"] < 10 else ">=10")
-            for p in ob["monitor"][:2]:
-                ctx.monitor_fail("operator", case, {"problem": p, "dev": ob.get("dev")},
-                                 "operator on sub-grids == operator on the grid", "operator equivalence",
-                                 key={"call_site": "GridMesh/_MPIBC"})
             if mode == "S":
-                # the padded sub-arrays are the model's extraction of the padded base array
+                # the padded sub-arrays against (a) the model's extraction of the padded base array, (b) the model
+                # of the exchange itself started from the valid data only; for the Cartesian Laplacian also the
+                # model's stencil on the whole grid / on the sub-arrays / on the exchanged sub-arrays
+                base = {"axes": ob["axes"], "periodic": list(sp["periodic"])}
+                anti = [ax in anti_axes(sp) for ax in range(len(sp["shape"]))]
+                fb = [fbits(x) for x in ob["base_full0"]]
                 bits = [int(np.float64(x).view(np.int64)) for x in ob["base_full0"]]
-                idx2.append((len(reqs2), sp, ob, case))
-                reqs2.append(("c17.extract", {"axes": ob["axes"], "periodic": list(sp["periodic"]), "ghost": True, "data": bits}))
+                ent = {"sp": sp, "ob": ob, "case": case, "extract": len(reqs2)}
+                reqs2.append(("c17.extract", dict(base, ghost=True, data=bits)))
+                ent["exchange"] = len(reqs2)
+                reqs2.append(("c17.exchange", dict(base, anti=anti, full=fb)))
+                if KINDS[sp["cls"]] == "cartesian" and sp["op"] == "laplace":
+                    ent["stencil"] = len(reqs2)
+                    reqs2.append(("c17.stencil", dict(base, anti=anti, full=fb,
+                                                      coef=[fbits(1.0 / dx ** 2) for dx in ob["dx"]])))
+                idx2.append(ent)
     ans2 = run_lean(ctx, reqs2)
-    for ri, sp, ob, case in idx2:
-        st, val = ans2[ri]
+    for ent in idx2:
+        sp, ob, case = ent["sp"], ent["ob"], ent["case"]
         ctx.impl_traces += 1
+        scale = max(1.0, max((abs(x) for x in ob["base_full0"] if x == x), default=1.0))
+        st, val = ans2[ent["extract"]]
         if st != "ok":
             ctx.disagree("operator:ghost-cells", case, val, None, "model error")
-            continue
-        scale = max(1.0, max(abs(x) for x in ob["base_full0"]))
-        for node, (mrec, rrec) in enumerate(zip(val, ob["sub_full"])):
-            mvals = np.array(mrec["data"], dtype=np.int64).view(np.float64)
-            rvals = np.array(rrec["data"])
-            mask = np.array(rrec["mask"])
-            if mrec["shape"] != rrec["shape"] or not np.all(np.abs(np.where(mask, mvals - rvals, 0.0)) <= 1e-11 * scale):
-                ctx.disagree("operator:ghost-cells", case, {"node": node, "model": mvals.tolist()},
-                             {"node": node, "impl": rvals.tolist()}, "padded sub-array after the exchange")
-                break
+        else:
+            for node, (mrec, rrec) in enumerate(zip(val, ob["sub_full"])):
+                mvals = np.array(mrec["data"], dtype=np.int64).view(np.float64)
+                rvals = np.array(rrec["data"])
+                mask = np.array(rrec["mask"])
+                if mrec["shape"] != rrec["shape"] or not np.all(_same(mvals, rvals, 1e-11 * scale) | ~mask):
+                    ctx.disagree("operator:ghost-cells", case, {"node": node, "model": mvals.tolist()},
+                                 {"node": node, "impl": rvals.tolist()}, "padded sub-array after the exchange vs block of the padded base array")
+                    break
+        st, val = ans2[ent["exchange"]]
+        if st != "ok":
+            ctx.disagree("operator:exchange", case, val, None, "model error")
+        else:
+            for node, (mrec, rrec) in enumerate(zip(val, ob["sub_full"])):
+                rvals = np.array(rrec["data"])
+                face = np.array(rrec["mpi_face"])
+                mvals = np.array([np.nan if x is None else unfbits(x) for x in mrec["data"]])
+                written = np.array([x is not None for x in mrec["data"]])
+                inner = np.array(rrec["mask"]) & ~np.isnan(rvals)
+                # the model writes exactly the valid cells and the faces with a neighbour, bit for bit what the code holds there
+                prob = None
+                if mrec["shape"] != rrec["shape"]:
+                    prob = "shape"
+                elif not np.array_equal(written & ~face, _interior_mask(rrec["shape"]).ravel()):
+                    prob = "cells written outside the faces with a neighbour"
+                elif not np.array_equal(written & face, face):
+                    prob = "a face with a neighbour is not written"
+                elif not np.all((mvals == rvals) | ~written):
+                    prob = "values (bit-exact)"
+                elif mrec["flip"] != rrec["flip"]:
+                    prob = "flip_sign of the _MPIBC faces"
+                if prob:
+                    ctx.disagree("operator:exchange", case, {"node": node, "what": prob, "model": mrec},
+                                 {"node": node, "impl": rvals.tolist(), "flip": rrec["flip"]},
+                                 "Mesh.exchange (initSub) vs the padded sub-arrays after the real exchange")
+                    break
+        if "stencil" in ent:
+            st, val = ans2[ent["stencil"]]
+            tol = 1e-10 * ob["scale"]
+            if st != "ok":
+                ctx.disagree("operator:stencil", case, val, None, "model error")
+            else:
+                dec_f = lambda l: np.array([np.nan if x is None else unfbits(x) for x in l])  # noqa: E731
+                ref0, res0 = np.array(ob["ref0"]), np.array(ob["result0"] if ob["result0"] is not None else [])
+                for name, target in (("whole", ref0), ("split", ref0), ("exchanged", ref0), ("exchanged", res0)):
+                    mv = dec_f(val[name])
+                    if name == "exchanged" and target is res0 and any(m["sym"].startswith(("ghost", "operator", "exchange"))
+                                                                       for m in ob["monitor"]):
+                        continue  # the real sub-grid result is already reported wrong by the monitor
+                    if mv.shape != target.shape or not np.all(np.abs(mv - target) <= tol):
+                        ctx.disagree("operator:stencil", case, {"which": name, "model": mv.tolist()}, target.tolist(),
+                                     "applyStencil (Cartesian Laplacian) vs the package's operator")
+                        break
     ctx.exhaustive = ctx.tier == "thorough"
     ctx.note("exhaustive over all decompositions of 1-d <= 12, 2-d <= 6x5, 3-d <= 4x3x3 Cartesian grids with all "
              "periodic flags" if ctx.tier == "thorough" else
@@ -1337,29 +1906,74 @@ def search(ctx, broken):
     return found
 
 
+NESTED_SPEC = {"cls": "UnitGrid", "shape": [4, 4], "bounds": [[0, 4], [0, 4]], "periodic": [False, True],
+               "dec": [1, 1], "nested": [2, 2]}
+
+
 def replay(ctx, rep):
-    c = rep["case"]
-    leg = rep.get("leg")
-    if leg == "subdivide" or c.get("leg") == "subdivide":
-        r = subdivide_worker(([(c["num"], c["chunks"])], [(c["num"], c["chunks"])]))
-        print("sizes:", r["sizes"], "problems:", r["bad"])
-        return not r["bad"]
-    if leg == "operator" or c.get("leg") == "operator":
-        sp = dict(c)
-        sp["backend"] = "numba"
-        ob = op_worker(sp)
-        print("operator replay:", ob["error"], ob["monitor"], ob.get("dev"))
-        return ob["error"] is None and not ob["monitor"]
-    if leg == "malformed" or c.get("leg") in ("malformed", "nested"):
-        if c.get("leg") == "nested":
-            c = {"cls": "UnitGrid", "shape": [4, 4], "bounds": [[0, 4], [0, 4]], "periodic": [False, True],
-                 "dec": [1, 1], "nested": [2, 2]}
-        ob = malformed_worker(c)
-        print("outcome:", ob)
-        return ob["outcome"] != "ok"
-    sp = dict(c)
-    sp.setdefault("fields", ["scalar", "vector", "tensor", "collection"])
-    obs = mesh_worker(sp)
-    probs = ([f"raised {obs['error']}"] if obs["error"] else list(obs["monitor"]) + field_valid_check(obs, sp))
-    print("monitor:", probs or "holds")
-    return not probs
+    """re-run the recorded case on the real code: same leg, same inputs, same execution mode (the operator leg
+    records whether the case ran as Python source, NUMBA_DISABLE_JIT=1, or JIT-compiled), judged by the same
+    monitor function as in the run.  False = the property (still) fails for the case."""
+    from harness.common.isolated import run_many
+
+    c = rep.get("case")
+    if not isinstance(c, dict):
+        print("replay: the file holds no case that can be re-run; treated as failing")
+        return False
+    leg = rep.get("leg") or c.get("leg")
+    recorded = rep.get("what")
+    env_s = OP_ENV["S"]
+
+    def one(func, arg, env):
+        r = run_many("harness.c17", func, [arg], env=env, procs=1)[0]
+        if isinstance(r, str):
+            print(f"replay: the worker crashed while driving the real code ({r[-400:]}); treated as failing")
+            return None
+        return r
+
+    try:
+        if leg == "subdivide" or c.get("leg") == "subdivide":
+            r = one("subdivide_worker", ([(c["num"], c["chunks"])], [(c["num"], c["chunks"])]), env_s)
+            if r is None:
+                return False
+            print("sizes:", r["sizes"], "problems:", r["bad"])
+            return not r["bad"]
+        if leg == "operator" or c.get("leg") == "operator":
+            mode = c.get("mode", "S")
+            sp = dict(c)
+            sp["backend"] = "numba"
+            ob = one("op_worker", sp, OP_ENV[mode])
+            if ob is None:
+                return False
+            if ob.get("source_mode") != (mode == "S"):
+                print("replay: could not reproduce the recorded execution mode", mode, "; treated as failing")
+                return False
+            label, fails = judge_op(sp, ob)
+            print(f"operator replay (mode {mode}): {label}; dev {ob.get('dev')}, public route {ob.get('dev_public')}")
+            for observed, expected, what, key in fails:
+                print("  fails:", what, "|", json.dumps(observed, default=str)[:300], "| key", key)
+            if fails and recorded and not any(f[2] == recorded for f in fails):
+                print(f"  the recorded symptom ({recorded!r}) is gone, but the case still fails")
+            return not fails
+        if leg == "malformed" or c.get("leg") in ("malformed", "nested"):
+            sp = dict(NESTED_SPEC) if c.get("leg") == "nested" else dict(c)
+            ob = one("malformed_worker", sp, env_s)
+            if ob is None:
+                return False
+            fails = malformed_judge(sp, ob)
+            print("outcome:", ob.get("outcome"), ob.get("dec"), "monitor:", [f[2] for f in fails] or "holds")
+            return not fails
+        if leg == "mesh" or c.get("leg") in (None, "mesh"):
+            sp = dict(c)
+            sp.setdefault("fields", ["scalar", "vector", "tensor", "collection"])
+            obs = one("mesh_worker", sp, env_s)
+            if obs is None:
+                return False
+            probs = ([f"raised {obs['error']}"] if obs["error"] else list(obs["monitor"]) + field_valid_check(obs, sp))
+            print("monitor:", probs or "holds")
+            return not probs
+    except KeyError as e:
+        print(f"replay: the recorded case lacks the field {e}; it cannot be re-run and is treated as failing")
+        return False
+    print(f"replay: unknown leg {leg!r}; the case cannot be re-run and is treated as failing")
+    return False
